@@ -46,7 +46,7 @@ claim("C05", CONC,
 claim("C06", PROOF,
       "Proof over assumed net/http and io contracts (response body as an abstract stream with remaining/fault/closed ghost state): on every path of hit the result carries the attack name and the section's sequence number, the target's method and URL once the targeter succeeded, BytesIn == len(Body) (also after a read error), at most max-body bytes captured; an empty error implies a completed exchange with status in [200,400) and on completed exchanges Error is empty exactly for those codes; "
       "after a successful Do the body is closed on every path and read to its end unless a read failed; the request handed to the transport has the target's method and URL and carries X-Vegeta-Seq == the result's sequence number and X-Vegeta-Attack iff the attack is named.",
-      "Trusted: stubs for http.NewRequest/Client.Do/Header.Set, io.ReadAll/LimitReader/Copy, error.Error (library error texts non-empty); trusted contract of Target.Request (header copy without canonicalisation is NOT verified yet). Not covered: bytes on the wire, redirect policy closure, chunked option beyond the append.",
+      "Trusted: stubs for http.NewRequest/Client.Do/Header.Set, io.ReadAll/LimitReader/Copy, error.Error (library error texts non-empty); trusted contract of Target.Request (header copy without canonicalisation is NOT verified yet). The redirect policy closure installed by Redirects(n): NoFollow returns http.ErrUseLastResponse, the (n+1)-th redirect is refused with a fresh error, up to n are followed. Not covered: bytes on the wire, net/http's own handling of the policy's answer, chunked option beyond the append.",
       "DESIGN.md 8/C06")
 
 claim("C10", PROOF,
@@ -97,18 +97,19 @@ claim("C17", PROOF + "; floats as reals for lttb",
       "labeledSeries.add buffers out-of-order results by sequence number and releases them in sequence order, each exactly once (buffer' = buffer + {seq} - released run; released as far as possible), at x = (timestamp - timestamp of seq 0)/1e6 ms; timeSeries.add pushes a point exactly once or rejects it leaving the series unchanged.",
       "Assumption: machine floating point treated as mathematical reals in Downsample (IEEE rounding of float64(i+1)*size could move a bucket boundary by one; the code's len(points)==0 fallback tolerates that, the proof does not model it). Trusted: Iter type contract (assumed for timeSeries.iter), tsz stubs, Labeler type contract. Stated: count <= 2^61, attack shorter than 292 years, each sequence number added once, timestamps follow sequence order (C05). "
       "Plot.data (floats as reals): given well-formed series (len == points pushed) it asks Downsample for every series with that series' own iterator and length, emits exactly one row per downsampled point, each row with one column per series plus x, labels[0] == \"Seconds\", and returns the rows sorted by x (sort.Sort's effect is the stated assumption 'orders by Less', with dataPoints.Less proved to compare the x column and Swap to exchange two rows; sort.Slice is assumed to permute the series). "
-      "Not covered: Plot.Add/WriteTo/plotRun (the representation invariant of the plot - distinct series own distinct tsz buffers - is a precondition of Plot.data, not proved to be maintained), the identification of timeSeries.iter's closure with the abstract lttb iterator (trusted mapping; the closure itself is proved against assumed go-tsz iterator contracts to deliver the next min(count, left) pushed points in order with x = seconds(t ms) and y = v), NaN padding of the other columns, HTML/JSON text emitted, tsz compression.",
+      "Plot.Add dispatches by attack name, creates a series on first sight and leaves all other attacks' series untouched (its callee's sequence-number preconditions are the property's domain restriction and assumed there); plotRun adds every decoded record, exactly as decoded, once and in order, closes the plot after the loop and writes it after closing. Not covered: the representation invariant of the plot across Add calls (distinct series own distinct tsz buffers; len == pushed) is a precondition of Plot.data, not proved to be maintained; WriteTo/Close/New (thin trusted contracts), the identification of timeSeries.iter's closure with the abstract lttb iterator (trusted mapping; the closure itself is proved against assumed go-tsz iterator contracts to deliver the next min(count, left) pushed points in order with x = seconds(t ms) and y = v), NaN padding of the other columns, HTML/JSON text emitted, tsz compression.",
       "DESIGN.md 8/C17")
 
 claim("C07", PROOF,
       "Proof over assumed strconv/base64/csv/textproto contracts: the CSV encoder hands csv.Writer exactly twelve columns in the documented order and units (unix-ns timestamp, code, latency ns, bytes out, bytes in, error, base64 body, attack, seq, method, url, base64 MIME headers) and flushes once per record; the CSV decoder, given a 12-field record, assigns every column to the matching Result field with the inverse conversion; "
-      "lemma csv_roundtrip_scalars derives decode(encode(x)) == x for every scalar column from the (assumed) library inverse pairs; headerBytes yields an empty column for nil headers.",
-      "Trusted: stubs and inverse-pair axioms of strconv.Format*/Parse*, base64, csv.Reader/Writer, textproto, http.Header.Write. Not covered: gob (reflection inside encoding/gob), the generated easyjson JSON codec (key/field pairing not yet under contract: trusted contracts), that header MIME serialisation round-trips, 'fields the Result type gains later'.",
+      "lemma csv_roundtrip_scalars derives decode(encode(x)) == x for every scalar column from the (assumed) library inverse pairs; headerBytes yields an empty column for nil headers. "
+      "The generated easyjson codec for results is under contract as well: the encoder writes exactly the twelve documented keys in order, each followed by the field of the same name with the documented representation (latency as integer nanoseconds, timestamp RFC 3339, body base64); the decoder stores every documented key into the field of the same name and writes nothing else.",
+      "Trusted: stubs and inverse-pair axioms of strconv.Format*/Parse*, base64, csv.Reader/Writer, textproto, http.Header.Write. Not covered: gob (reflection inside encoding/gob), the JSON token-level round trip (jwriter's output re-read by jlexer: library internals; only key/field pairing, order and representations are proved), that header MIME serialisation round-trips, 'fields the Result type gains later'.",
       "DESIGN.md 8/C07")
 
 claim("C09", PROOF,
       "Proof: the JSON decoder closure hands only complete newline-terminated lines to the unmarshaller; when the line read fails (stream cut inside the last record) it returns the error before touching *r, so a torn record is never decoded; at most one record per call. The CSV and JSON encoder closures emit exactly one whole record (JSON: record, newline, one DumpTo; CSV: one Write, one Flush) per call, so every point between calls is a record boundary; the CSV decoder requires 12 fields per record (FieldsPerRecord as object invariant).",
-      "Trusted: stubs for bufio.Reader.ReadBytes, csv.Reader/Writer, jwriter, the generated marshallers (trusted contracts). Not covered: gob's length framing and csv.Reader's behaviour on a torn record (library internals), the attack command's result pump.",
+      "Trusted: stubs for bufio.Reader.ReadBytes, csv.Reader/Writer, jwriter/jlexer. Not covered: gob's length framing and csv.Reader's behaviour on a torn record (library internals).",
       "DESIGN.md 8/C09")
 
 claim("C08", PROOF,
